@@ -6,8 +6,19 @@ oracle comes from the framework.  Per-request observations are written into the
 request's own environ dict, which the harness created for that request.
 """
 from clastic import Application, Response, Middleware, GET, POST, Route
+from clastic.utils import Redirector
+from clastic.middleware.cookie import SignedCookieMiddleware
 from clastic.errors import NotFound, Forbidden, Conflict, ErrorHandler
 from clastic import S_REDIRECT, S_REWRITE, S_STRICT
+
+
+CART_KEY = b'thread-world-cart-key'
+
+
+def cart_cookie(items):
+    """Cookie header value a client holding this cart sends (signed with the application's key)."""
+    from clastic.middleware.cookie import JSONCookie
+    return 'clastic_cookie=' + JSONCookie({'cart': list(items)}, CART_KEY).serialize().decode()
 
 
 def rid(request):
@@ -29,7 +40,13 @@ class TokMW(Middleware):
     provides = ('tok',)
 
     def request(self, next, request):
-        return next(tok='tok-' + rid(request))
+        resp = next(tok='tok-' + rid(request))
+        try:
+            # the value this middleware provided for THIS request is also stamped on whatever comes back
+            resp.headers['X-Sim-Tok'] = 'tok-' + rid(request)
+        except Exception:
+            pass
+        return resp
 
 
 class EpTokMW(Middleware):
@@ -137,6 +154,13 @@ def ep_doc(request, tok=None):
     return Response('doc|%s|%s' % (tok, rid(request)), headers={'X-Sim-Route': 'doc'})
 
 
+def ep_cart(request, cookie, tok=None):
+    # reads a list kept in the signed cookie and works on it (without storing it back)
+    cart = cookie.get('cart', [])
+    cart.append(request.args.get('add', '?'))
+    return Response('cart|%s|%s' % (','.join(cart), rid(request)), headers={'X-Sim-Route': 'cart'})
+
+
 def ep_nonresp(request, tok=None):
     return 'not-a-response-%s' % rid(request)
 
@@ -176,6 +200,8 @@ def build(cfg):
         ('/doc', ep_doc_v2),
         ('/doc', ep_doc),
         ('/boom', ep_boom),
+        ('/go', Redirector('/hi/there', code=302)),
+        Route('/cart', ep_cart, middlewares=[SignedCookieMiddleware(secret_key=CART_KEY)]),
         ('/dir/', ep_dir),
         ('/br/<x>/', ep_br),
         ('/ret409', ep_ret409),
